@@ -19,7 +19,7 @@ def cases(tier, seed=0):
         dims = [(1, 1), (2, 2)] if ident else [(1, 1), (2, 1), (1, 2), (2, 2)]
         for (Dx, Dy) in dims:
             for (Rc, Rx) in batches:
-                if kind == "nncontrol" and Rc > 1:
+                if kind == "nncontrol" and Rc > 2:
                     continue
                 if (Dx, Dy) == (2, 2):
                     for semi in rotations(kind, 2):
@@ -35,12 +35,12 @@ def cases(tier, seed=0):
             else:
                 for (Dx, Dy) in [(3, 1), (1, 3), (2, 3), (3, 2)]:
                     for (Rc, Rx) in batches + [(1, 3), (3, 1)]:
-                        if kind == "nncontrol" and Rc > 1:
+                        if kind == "nncontrol" and Rc > 2:
                             continue
                         for semi in rotations(kind, 2):
                             out.append(make_case(PROP, "marginal", kind, Dx, Dy, Rc, Rx, semi=semi, timeout=1200))
                 for (Rc, Rx) in batches:
-                    if kind == "nncontrol" and Rc > 1:
+                    if kind == "nncontrol" and Rc > 2:
                         continue
                     for semi in rotations(kind, 1):
                         out.append(make_case(PROP, "marginal", kind, 2, 2, Rc, Rx, semi=semi, timeout=1800, extra="t"))
@@ -52,5 +52,5 @@ def cases(tier, seed=0):
                 continue
             sm = var + ((("Sx",) if dd == (2, 2) else ()))
             out.append(make_case(PROP, "marginal", kind, dd[0], dd[1], 1, 1, semi=sm, timeout=600))
-            out.append(make_case(PROP, "marginal", kind, 1, 1, 1 if kind == "nncontrol" else 2, 1, semi=var, timeout=600))
+            out.append(make_case(PROP, "marginal", kind, 1, 1, 2, 1, semi=var, timeout=600))
     return out
